@@ -10,7 +10,7 @@
    The statements quantify over every configuration [c : cfg] and every state reachable by any history
    (through the invariant [inv], established for all histories by [reachable_inv]). *)
 From Common Require Import Prelude.
-From C11 Require Import Model Lemmas XModel XLemmas.
+From C11 Require Import Model Lemmas XModel XLemmas GModel GLemmas.
 Open Scope Z_scope.
 
 (* every state of every history satisfies the invariant: in a running game the mode's player and the
@@ -470,3 +470,83 @@ Example ach_hypotheses_satisfiable :
   /\ rl_get 1 (xach ex_a3) = [Some (ADisabled, false)].
 Proof. exact ex_ach. Qed.
 Print Assumptions ach_hypotheses_satisfiable.
+
+(* ======================================================================================================== *)
+(* third layer (GModel.v): shot group rotation and the score queue — clients of the player object that keep a
+   cursor on the device or write with a delay *)
+
+(* every state of every history of the extended operations satisfies the invariant of the game *)
+Theorem g_reachable_inv : forall c ops, ginv c (grun c ginit ops).
+Proof. exact g_reachable_inv_l. Qed.
+Print Assumptions g_reachable_inv.
+
+(* one extended operation of any kind (rotation, queued scoring with or without a drain, hand-over) leaves every
+   player who is not up before or after it untouched *)
+Theorem g_step_frame :
+  forall c gs o, ginv c gs -> ingame (gg gs) = true -> ingame (gg (fst (gstep c gs o))) = true ->
+    forall j st, j <> cur (gg gs) -> j <> cur (gg (fst (gstep c gs o))) ->
+      nth_error (players (gg gs)) j = Some st -> nth_error (players (gg (fst (gstep c gs o)))) j = Some st.
+Proof. exact gstep_frame_l. Qed.
+Print Assumptions g_step_frame.
+
+(* every ball start (drain, end_game with an extra ball pending, queued scoring + drain, new game) puts the group's
+   cursor back to the head of the configured pattern and rotation_enabled back to its configured value, whatever
+   the history was *)
+Theorem rotation_reset_at_ball_start :
+  forall c gs o, starts_ball gs o ->
+    gpos (fst (gstep c gs o)) = O /\ grot (fst (gstep c gs o)) = negb (g_enrot c).
+Proof. exact rotation_reset_l. Qed.
+Print Assumptions rotation_reset_at_ball_start.
+
+(* any sequence of rotations (pattern / left / right) in a ball: the current player's variables afterwards are a
+   function (rot_store) of HIS variables before, the cursor and the sequence; the cursor is a function of the cursor
+   before and the sequence; nobody else's variables change.  With rotation_reset_at_ball_start the cursor at the
+   start of the ball is 0: the member states depend only on the current player's stored states and the rotations of
+   THIS ball *)
+Theorem rotations_local :
+  forall c ds gs, ginv c gs -> ingame (gg gs) = true -> grot gs = true ->
+    let gs' := grun c gs (map GRotate ds) in
+    store_of (gg gs') (cur (gg gs)) = rot_store c (cur (gg gs)) (store_of (gg gs) (cur (gg gs))) (gpos gs) ds
+    /\ gpos gs' = rot_cursor c (gpos gs) ds /\ grot gs' = true /\ cur (gg gs') = cur (gg gs)
+    /\ forall j, j <> cur (gg gs) -> store_of (gg gs') j = store_of (gg gs) j.
+Proof. exact rotations_local_l. Qed.
+Print Assumptions rotations_local.
+
+(* score queue: everything queued in a turn is added to the player whose turn it is BEFORE the ball ends (the
+   hand-over runs on the state that already contains the points), and to nobody else *)
+Theorem sq_before_handover :
+  forall c gs evs, ingame (gg gs) = true ->
+    let g1 := fst (write_to (cur (gg gs)) (sq_writes c evs) (gg gs)) in
+    gg (fst (gstep c gs (GSq evs true))) = fst (step (g_base c) g1 Drain)
+    /\ gg (fst (gstep c gs (GSq evs false))) = g1
+    /\ cur g1 = cur (gg gs)
+    /\ forall j, j <> cur (gg gs) -> store_of g1 j = store_of (gg gs) j.
+Proof. exact sq_before_handover_l. Qed.
+Print Assumptions sq_before_handover.
+
+(* the digit-by-digit additions of one entry add up to the entry: nothing is lost or invented *)
+Theorem sq_entry_adds_sum : forall v, 0 <= v -> zsum (entry_adds v) = v.
+Proof. exact entry_adds_sum. Qed.
+Print Assumptions sq_entry_adds_sum.
+
+(* every event of every extended operation is well formed (value, prev_value, change = value - prev_value) *)
+Theorem g_step_events_ok : forall c gs o, all_ok (snd (gstep c gs o)).
+Proof. exact gstep_events_ok_l. Qed.
+Print Assumptions g_step_events_ok.
+
+(* two players, pattern r, r, l, l: player 1 lights shot 1 and rotates twice (cursor 2, next direction l); two
+   entries (2000 + 300) are queued and the ball drains: player 1 gets 2300, player 2 nothing; player 2 lights shot 1
+   and rotates once: the rotation goes RIGHT (head of the pattern), player 1 keeps his states *)
+Example g_hypotheses_satisfiable :
+  ginv exg_cfg exg_s1 /\ ingame (gg exg_s1) = true /\ grot exg_s1 = true /\ cur (gg exg_s1) = 0%nat
+  /\ gpos exg_s1 = 2%nat /\ pattern_dir exg_cfg 2 = false
+  /\ map (shot_state (store_of (gg exg_s1) 0)) (g_members exg_cfg) = [0; 0; 1]
+  /\ starts_ball exg_s1 (GSq [300; 301] true)
+  /\ cur (gg exg_s2) = 1%nat /\ gpos exg_s2 = 1%nat
+  /\ map (shot_state (store_of (gg exg_s2) 1)) (g_members exg_cfg) = [0; 1; 0]
+  /\ map (shot_state (store_of (gg exg_s2) 0)) (g_members exg_cfg) = [0; 0; 1]
+  /\ getvar n_score (store_of (gg exg_s2) 0) = VInt 2300
+  /\ getvar n_score (store_of (gg exg_s2) 1) = VInt 0
+  /\ entry_adds 2300 = [1000; 1000; 100; 100; 100].
+Proof. exact ex_g. Qed.
+Print Assumptions g_hypotheses_satisfiable.
